@@ -111,13 +111,93 @@ func nearLimitSet(r *vh.Run, rng *vh.RNG, name string, v2 bool) {
 	w.Finish(res == "ok", "near-limit-set", fmt.Sprintf("near-limit-set-v2:%v", v2))
 }
 
+// mixedFullPool: a full pool holding BOTH kinds.  The v2 slice starts with a two-transaction set paying
+// the best fee rate, the v1 slice with the two cheapest transactions; heavy transactions of both kinds
+// follow until the 20M line is crossed.  The eviction must take the cheapest transactions - wherever
+// they sit in their own slice - and nothing else: the best-fee set stays complete and can be looked up.
+func mixedFullPool(r *vh.Run, rng *vh.RNG, name string) {
+	w := poolrig.NewWorld(r, rng, name, chainx.PoolNet(rng, 1, 1000))
+	g := &poolrig.Gen{W: w, Rng: rng}
+	tip := 0
+	for i := 0; i < 16; i++ {
+		tip = w.GrowRandom(tip, 0)
+	}
+	w.Refresh()
+	cs := w.Node.CM.TipState()
+	free := w.FreeCoins()
+	if len(free) < 15 {
+		w.Finish(false, "mixed-full-skipped")
+		return
+	}
+	var all1 []types.Transaction
+	var all2 []types.V2Transaction
+	// the best-fee v2 set (positions 0 and 1 of the v2 slice)
+	best := []types.V2Transaction{
+		w.SpendV2(cs, free[0:1], 1, types.Siacoins(90), 600_000),
+		w.SpendV2(cs, free[1:2], 1, types.Siacoins(91), 600_000),
+	}
+	g.AddV2(w.TipID(), best, nil, "fresh", -1, false)
+	all2 = append(all2, best...)
+	// the two cheapest transactions (positions 0 and 1 of the v1 slice)
+	for k := 0; k < 2; k++ {
+		t := w.SpendV1(cs, free[2+k:3+k], 1, types.Siacoins(uint32(1+k)), 1_900_000)
+		g.AddV1([]types.Transaction{t}, nil, "fresh", -1, false)
+		all1 = append(all1, t)
+	}
+	// heavy transactions of both kinds, fees scrambled, until the pool is full
+	order := rng.Perm(9)
+	total := uint64(0)
+	for k := 0; k < 9 && !w.Panicked; k++ {
+		fee := types.Siacoins(uint32(10 + order[k]))
+		size := 1_850_000 + rng.Intn(60_000)
+		if k%2 == 0 {
+			t := w.SpendV2(cs, free[4+k:5+k], 1, fee, size)
+			g.AddV2(w.TipID(), []types.V2Transaction{t}, nil, "fresh", -1, false)
+			all2 = append(all2, t)
+		} else {
+			t := w.SpendV1(cs, free[4+k:5+k], 1, fee, size)
+			g.AddV1([]types.Transaction{t}, nil, "fresh", -1, false)
+			all1 = append(all1, t)
+		}
+		total = 0
+		for _, t := range all1 {
+			total += cs.TransactionWeight(t)
+		}
+		for _, t := range all2 {
+			total += cs.V2TransactionWeight(t)
+		}
+		if total >= 10*cs.MaxBlockWeight() {
+			break
+		}
+	}
+	w.Refresh()
+	g.CheckEviction(all1, all2, "mixed full pool")
+	// the best-fee set is complete and can be looked up
+	pool := w.PoolIDs()
+	for _, t := range best {
+		if !pool[t.ID()] {
+			w.C.Oracle("best-fee-set-member-evicted", "a member of the accepted v2 set paying the highest fee rate is no longer pooled after the eviction")
+		}
+		w.Get2(t.ID(), "v2")
+		w.Get1(t.ID(), "v2")
+	}
+	for _, t := range all1 {
+		w.Get1(t.ID(), "v1")
+	}
+	g.Aliasing()
+	w.Finish(w.Stats["evicted"] > 0, "mixed-full-pool")
+}
+
 func Run(r *vh.Run) {
-	r.Rule = "a case = one real chain.Manager on a growing fork tree (v2 allow height in {1,2,4}, require height allow+0..9 or never) driven by 40-80 generated steps: fresh v1/v2 sets (independent, parent/child, spending pooled outputs), partly and wholly known sets, sets conflicting with the pool at a random position k of n<=4, sets invalid at position k (bad signature / double spend inside the set / missing output), stale and unknown bases, lookups through both APIs (v1, v2, former, unknown ids), aliasing probes, blocks confirming pool prefixes, fork blocks and reorgs; plus near-limit cases: nine 1.9M-weight transactions (17M of the 20M pool limit), then ONE set of four new transactions that crosses the limit at its second member (the set has the highest fee rates, so the eviction at the next query spares it): every member must be pooled; v1 / v2. non-trivial = at least one accepted and one rejected submission; distinct = distinct op lists"
+	r.Rule = "a case = one real chain.Manager on a growing fork tree (v2 allow height in {1,2,4}, require height allow+0..9 or never) driven by 40-80 generated steps: fresh v1/v2 sets (independent, parent/child, spending pooled outputs), partly and wholly known sets, sets conflicting with the pool at a random position k of n<=4, sets invalid at position k (bad signature / double spend inside the set / missing output), stale and unknown bases, lookups through both APIs (v1, v2, former, unknown ids), aliasing probes, blocks confirming pool prefixes, fork blocks and reorgs; plus mixed full-pool cases: a pool of both kinds filled to the 20M eviction line - the v2 slice starts with a two-transaction set paying the best fee rate, the v1 slice with the two cheapest transactions - after which only the cheapest transactions may be gone and the best-fee set is looked up; plus near-limit cases: nine 1.9M-weight transactions (17M of the 20M pool limit), then ONE set of four new transactions that crosses the limit at its second member (the set has the highest fee rates, so the eviction at the next query spares it): every member must be pooled; v1 / v2. non-trivial = at least one accepted and one rejected submission; distinct = distinct op lists"
 	rng := vh.NewRNG(r.Seed).Fork() // seeds are consecutive stream positions of splitmix64; fork to decorrelate them
 	n := r.Pick(250, 1500)
 	for i := 0; i < n; i++ {
 		crng := rng.Fork()
 		runCase(r, crng, fmt.Sprintf("c%d", i), r.Pick(50, 90))
+	}
+	for i := 0; i < r.Pick(1, 4); i++ {
+		mixedFullPool(r, rng.Fork(), fmt.Sprintf("m%d", i))
 	}
 	for i := 0; i < r.Pick(2, 6); i++ {
 		nearLimitSet(r, rng.Fork(), fmt.Sprintf("n%d", i), i%2 == 1)
